@@ -36,6 +36,7 @@ CONSTANTS Chains,      \* e.g. {"A","B"}
           Fees,        \* relayer fee amounts (paid in the origin token)
           SendFrom,    \* set of <<chain, kind>> allowed to send (bounds the model; all pairs = unrestricted)
           WithRotate,  \* whether relayer re-registrations (Rotate) are part of the model (multiplies the state space)
+          WithUpgradeRev, \* whether client upgrades to a later revision (UpgradeRev) are part of the bounded model (they multiply its states)
           Delay,       \* 0, or 1: a proof at a verified height is honoured only in a LATER block of the receiving chain than the one that stored it
           LimWhere,    \* pairs <<chain, token>> whose limit governance acts on in the model (bounds the model; AllLimWhere = any)
           LimitSets    \* parameter triples <<cap, max, min>> governance may try to enable as a time-based supply limit ({} = no limits)
@@ -416,7 +417,7 @@ Next ==
   \/ \E c \in Chains : \E d \in Others(c), nm \in {"prefix", "ext"} : NewClient(c, d, nm)
   \/ \E c \in Chains : \E d \in Others(c), a \in Amts : SendFake(c, d, a)
   \/ \E c \in Chains : Regenesis(c)
-  \/ \E c \in Chains : \E d \in Others(c) : clients[c][d].latest < Beyond /\ UpgradeRev(c, d)
+  \/ \E c \in Chains : \E d \in Others(c) : WithUpgradeRev /\ clients[c][d].latest < Beyond /\ UpgradeRev(c, d)
   \/ \E c \in Chains : \E d \in Others(c) : WithRotate /\ Rotate(c, d)
   \/ \E c \in Chains : \E x \in LimKeys(c), t \in LimitSets : <<c, x>> \in LimWhere /\ EnableLimit(c, x, t)
   \/ \E c \in Chains : \E x \in LimKeys(c) : LimitSets # {} /\ <<c, x>> \in LimWhere /\ DisableLimit(c, x)
